@@ -144,16 +144,28 @@ func calculateNextQuota(
 		}
 	}
 
-	// The minimum limit quota is 1
-	if next < 1 {
-		next = 1
-	}
 	if next < total*MinimumQuotaPercent {
 		next = total * MinimumQuotaPercent
 	}
 
+	// never grow by more than what is left; nothing is left when the allocated
+	// sum exceeds the limit (e.g. after the limit was lowered)
+	if remaining < 0 {
+		remaining = 0
+	}
 	if next-current > remaining {
 		next = current + remaining
+	}
+
+	// no quota beyond the limit
+	if next > total {
+		next = total
+	}
+
+	// The minimum limit quota is 1. This floor comes last: clamping the growth
+	// must not push a quota to zero or below.
+	if next < 1 {
+		next = 1
 	}
 
 	next = math.Ceil(next)
